@@ -118,6 +118,13 @@ Definition key_body (v:value) : Comp value :=
   | VIO (IOBind sp m f h argv) => ks <- map_call PKey argv ;; Ret (VIO (IOBind sp m f h ks))      (* the action itself, its arguments replaced by their keys: comparable and still executable *)
   | _ => Ret x end.
 
+(* proc_functional(metadata, f)(metadata, argv) of a continuation / handler kept by ㄱㄹ: only now is it required to be a function (general_callable
+   is off) and, when it is a literal, looked up among the built-ins *)
+Definition late_ok (e:evalr) : bool :=
+  match e with EBuiltin n => existsb (Z.eqb n) builtin_names | EFun _ => true | _ => false end.
+Definition late_apply (e:evalr) (sp:span) (argv:list value) : Comp value :=
+  if late_ok e then call (PApply e sp argv) else raise (match e with EBuiltin _ => c_notfound | _ => c_type end) sp.
+
 Definition doio_body (v:value) : Comp value :=
   match v with
   | VIO i =>
@@ -129,9 +136,9 @@ Definition doio_body (v:value) : Comp value :=
                Catch (x <- call (PDoIO m) ;; Ret (VList [x]))
                      (fun e => match h with
                                | None => Raise e
-                               | Some rej => r <- call (PApply rej sp [VErr (e_spans e) (e_vals e)]) ;; r <- force r ;; check_type sp [r] is_io ;;; Ret r end)
+                               | Some rej => r <- late_apply rej sp [VErr (e_spans e) (e_vals e)] ;; r <- force r ;; check_type sp [r] is_io ;;; Ret r end)
                      (fun w => match w with
-                               | VList [x] => r <- call (PApply f sp [x]) ;; r <- force r ;; check_type sp [r] is_io ;;; Ret r
+                               | VList [x] => r <- late_apply f sp [x] ;; r <- force r ;; check_type sp [r] is_io ;;; Ret r
                                | _ => Ret w end)
            end ;;
       x <- force r ;; call (PDoIO x)
